@@ -38,15 +38,31 @@ def lookup3 (k : String) : List (String × String × String) → Option (String 
   | [] => none
   | (a, b, c) :: t => if a = k then some (b, c) else lookup3 k t
 
+/-- which (hint, default key) does the server present for the server name the client asks for ("" = none given)?  A
+property of the server's CONFIGURATION and that name alone — not of which clients connected before -/
+def served (cfg : Cfg) (sni : String) : Option (String × String) :=
+  match cfg.ss with
+  | none => some (cfg.sh.getD "", cfg.sk)
+  | some tab => lookup3 sni tab
+
+/-- the key the server holds for this identity under that server name; none = nobody can be accepted (unknown name,
+unknown identity, or an empty key: D19d) -/
+def serverKey (cfg : Cfg) (sni id : String) : Option String :=
+  match served cfg sni with
+  | none => none
+  | some (_, defKey) =>
+    let k : Option String :=
+      match cfg.st with
+      | none => some defKey
+      | some tab => lookup2 id tab
+    match k with
+    | none => none
+    | some k => if k = "" then none else some k
+
 /-- the handshake may complete iff every check both sides configured passes and the keys are equal -/
 def accepts (cfg : Cfg) : Verdict :=
   if cfg.ck = "" ∨ cfg.ci = "" then .nosession else
-  -- which key / hint does the server present for the name the client asks for?
-  let served : Option (String × String) :=
-    match cfg.ss with
-    | none => some (cfg.sh.getD "", cfg.sk)
-    | some tab => lookup3 (cfg.sni.getD "") tab
-  match served with
+  match served cfg (cfg.sni.getD "") with
   | none => .fail
   | some (hint, defKey) =>
     let hintOk : Bool :=
